@@ -131,7 +131,11 @@ def finish(ctx: Ctx, t0: float, level_explanation: str, assumptions: list[str],
     """Apply known findings, print report, write evidence; return exit code."""
     ctx.check_floors()
     known = [k for k in load_known() if k.get("property") == ctx.prop]
-    open_ids = {k["identity"]: k for k in known if k.get("status") == "open"}
+    open_ids = {}
+    for k in known:
+        if k.get("status") == "open":
+            for i in k.get("identities", []):
+                open_ids[i] = k
     violations: list[Finding] = []
     matched_known: list[Finding] = []
     for fd in ctx.findings:
@@ -141,9 +145,9 @@ def finish(ctx: Ctx, t0: float, level_explanation: str, assumptions: list[str],
             violations.append(fd)
     for fd in matched_known:
         print(f"KNOWN-FINDING: property={ctx.prop} {fd.identity} -- {open_ids[fd.identity].get('what', fd.message)}")
-    stale = [k for i, k in open_ids.items() if i not in {f.identity for f in matched_known}]
-    for k in stale:
-        print(f"note: known finding no longer reported (repaired or moved): {k['identity']}")
+    stale = [i for i in open_ids if i not in {f.identity for f in matched_known}]
+    for i in stale:
+        print(f"note: known finding no longer reported (repaired or moved): {i}")
     for fd in ctx.infos:
         print(f"info: {fd!r}")
     evdir = VERIF / "evidence"
